@@ -7,6 +7,13 @@ SESS_ASSUME = [
     'bounded model: at most 2 outbound calls, 2 inbound calls, 2 Close invocations per behaviour',
 ]
 
+def _drift_gate(cov, verdict):
+    """More than half of the strict session replays drifted and Layer P accepted every session trace: the check is broken
+    (exit 2) unless one of its other engines has rejected a trace recorded from the same code."""
+    if cov.get('drift_majority_unexplained') and not verdict.violations:
+        import vlib
+        raise vlib.Broken('more than half of the strict replays drifted and Layer P accepted every trace: the model no longer describes the code')
+
 def _rdm_merge(cov, mcov):
     cov.update(mcov)
     cov['traces_validated_against_impl'] += mcov['redialm_traces']
@@ -24,6 +31,7 @@ def c02(prop, tier, verdict):
     cov, _ = eng_sess.run(prop, tier, verdict)
     # calls on a session that redials: every call completes exactly once whatever the schedule inside a loss (spec/RedialM.tla)
     _rdm_merge(cov, redialm(prop, tier, verdict, 200, only=_rdm_calls))
+    _drift_gate(cov, verdict)
     return 'model_checking', cov, SESS_ASSUME + [REDIALM_ASSUME]
 
 def c08(prop, tier, verdict):
@@ -37,6 +45,7 @@ def c08(prop, tier, verdict):
     cov['samples'].append({'hub_history': hcov['hub_sample']})
     # Close() on a session that redials, racing with a loss, a redial round and new calls (spec/RedialM.tla)
     _rdm_merge(cov, redialm(prop, tier, verdict, 150, only=_rdm_close))
+    _drift_gate(cov, verdict)
     return 'model_checking', cov, SESS_ASSUME + [REDIALM_ASSUME, 'peer level: every index history of spec/Hub.tla ends with Peer.Close() while the handlers that are still running run on (15 ms observation window for a Close that returns too early)']
 
 def c07(prop, tier, verdict):
@@ -60,6 +69,7 @@ def c07(prop, tier, verdict):
     cov['samples'].append({'peer_history': pcov['samples'][-1]})
     # lifecycle and index of a session that redials: a local Close() ends it for good, at quiescence it is alive or ended (spec/RedialM.tla)
     _rdm_merge(cov, redialm(prop, tier, verdict, 200))
+    _drift_gate(cov, verdict)
     return 'model_checking', cov, SESS_ASSUME + [REDIALM_ASSUME, 'peer level: 2 connections, histories of at most 5 operations over the three establishment paths (ServeConn, accept loop on an in-memory listener, Dial over loopback TCP to the accept loop), both hook verdicts on both ends, Close on either end, cut, Peer.Close on either peer, calls; quick tier replays a seeded sample of 700 of the exported transitions', 'session index: 3 sessions, 2 user ids, histories of at most 7 operations, one operation at a time (quiescent probes)']
 
 DISP_ASSUME = [
